@@ -22,7 +22,10 @@ MANIFEST = dict(
     note="binary_byte_offset = first occurrence is now proved (LineBuffer bookkeeping across rolls, reader events and "
          "finish; slices: first occurrence if inside the sniffed prefix, else an occurrence in a reported line). "
          "Core's line selection is abstract in the theorems (a plan of sink calls); the correspondence instantiates "
-         "it with the context-free line search; context options, multi-line, JSON, -o/-r are covered by the CLI "
+         "it with the context-free line search (kind 1401) and, for -A/-B/-C, --passthru, --stop-on-nonmatch, -v, with "
+         "the plan computed by the C03 Core model (kind 1404: slice and reader strategies, the sniffed prefix of a "
+         "slice bounded to a few bytes by the hook verif_sniff_capacity, so that matched AND context lines meet the "
+         "per-line examination); multi-line with context, JSON, -o/-r are covered by the CLI "
          "oracle (NUL-freeness, notice conditions) only. The literal reading 'warning if lines were already "
          "printed' is refuted for --passthru context-only output (known finding). Rendering of a line is a "
          "Section variable assumed not to invent the byte.",
@@ -107,6 +110,38 @@ def gen_case(rng, default_cap):
                 max_matches=max_matches, path=path, cap=default_cap)
 
 
+def gen_ctx_case(rng, default_cap):
+    """kind 1404: a line-oriented search with -A/-B, --passthru, --stop-on-nonmatch, the plan computed by the Core
+    model; the prefix a slice strategy examines up front is bounded by `sniff` (hook), so that the first binary byte
+    lies beyond it in most cases and the per-line examination of matched AND context lines is what protects the sink"""
+    c = gen_case(rng, default_cap)
+    c["strategy"] = rng.choice([0, 1, 1])
+    b = c["b"]
+    bb = bytes([b])
+    pool = [l for l in (b"a", b"b", b"x", b"ab", b"", b"bx", b"xa", b"bb") if b == 0 or bb not in l] or [b"a"]
+    lines = [rng.choice(pool) for _ in range(rng.randint(1, 9))]
+    for _ in range(rng.choice([0, 1, 1, 1, 2])):
+        i = rng.randrange(len(lines))
+        p = rng.randint(0, len(lines[i]))
+        lines[i] = lines[i][:p] + bb + lines[i][p:]
+    s = b"\n".join(lines) + (b"" if rng.random() < 0.2 else b"\n")
+    c["stream"] = s
+    if c["strategy"] == 0 and rng.random() < 0.5:
+        c["capacity"] = rng.choice([4, 8, 16, 64])
+    c["passthru"] = rng.random() < 0.3
+    c["before"] = rng.choice([0, 0, 1, 2])
+    c["after"] = rng.choice([0, 0, 1, 2])
+    c["son"] = rng.random() < 0.3
+    c["sniff"] = rng.choice([0, 0, 1, 2, 3, 5, 8, default_cap])
+    if (c["before"] or c["after"]) and not c["passthru"]:
+        # a reader that answers 0 (end of input) and later delivers more bytes leaves Core::pos() inside a line once
+        # context lines are kept across the roll: with -v the real code then panics in Range::new (notes/C14.md,
+        # "Reader resuming after a zero-length read"); such histories are generated for context-free searches only
+        c["hist"] = [op for op in c["hist"] if op != 0]
+    c["null"] = False
+    return c
+
+
 def par_model(kind, lines, threads=8):
     """vlib.model on few but heavy cases: one driver process per case group"""
     if len(lines) <= 1:
@@ -135,7 +170,8 @@ def case_lines(c):
                       vlist([vbytes(n) for n in c["needles"]]), vbool(c["invert"]), vbool(c["passthru"]),
                       vopt(None if c["stop"] is None else str(c["stop"])), vbool(c["bin_reply"]), str(c["cap"]),
                       vopt(None if c["max_matches"] is None else str(c["max_matches"])),
-                      vopt(None if c["path"] is None else vbytes(c["path"])), str(npre), vbool(c.get("null", False))])
+                      vopt(None if c["path"] is None else vbytes(c["path"])), str(npre), vbool(c.get("null", False))]
+                     + ([str(c["before"]), str(c["after"]), vbool(c["son"]), str(c["sniff"])] if "sniff" in c else []))
     npre, rest = peek_sim(c["hist"], len(c["stream"]))
     return mk(c["hist"], 0), mk(rest, npre)
 
@@ -163,14 +199,14 @@ def ref_grep(c):
     return out
 
 
-def check_lib_cases(ctx, cases, stats, heavy=False):
+def check_lib_cases(ctx, cases, stats, heavy=False, kind=1401):
     lc = [case_lines(c) for c in cases]
-    co = vlib.code(1401, [a for a, _ in lc])
-    mo = (par_model if heavy else vlib.model)(1401, [b for _, b in lc])
+    co = vlib.code(kind, [a for a, _ in lc])
+    mo = (par_model if heavy else vlib.model)(kind, [b for _, b in lc])
     for c, (cl, ml), cout, mout in zip(cases, lc, co, mo):
         if cout in ("PANIC", "MISSING") or cout.startswith("PARSEFAIL"):
             ctx.violation("harness %s on a search case (debug assertion / overflow in the searcher?)" % cout,
-                          dict(kind=1401, case=c, line=cl))
+                          dict(kind=kind, case=c, line=cl))
             continue
         cv = parse_val(cout)
         if cv == [99]:
@@ -210,7 +246,7 @@ def check_lib_cases(ctx, cases, stats, heavy=False):
         # order of the protocol: begin first; a notified offset is also handed to finish
         if events and (events[0][0] != 0 or (binev and cv[1] == 0 and (events[-1][0] != 5 or events[-1][2] == []))):
             ctx.violation("sink protocol: begin is not the first call, or finish lacks the binary offset that was notified",
-                          dict(kind=1401, case=c, line=cl, events=repr(events)[:400]))
+                          dict(kind=kind, case=c, line=cl, events=repr(events)[:400]))
         if not same:
             mv = parse_val(mout) if mout.startswith("(") else None
             which = "?"
@@ -219,7 +255,7 @@ def check_lib_cases(ctx, cases, stats, heavy=False):
                          "files-without-match output", "count --include-zero output"]
                 which = ", ".join(n for n, x, y in zip(names, mv, cv) if x != y)
             ctx.violation("binary detection: model and code disagree on " + which,
-                          dict(kind=1401, case=c, code_line=cl, model_line=ml, model=mout, code=cout), nfi=True)
+                          dict(kind=kind, case=c, code_line=cl, model_line=ml, model=mout, code=cout), nfi=True)
         # ---- property oracles on the code's answers
         std_out = bz(cv[2])
         outs = [std_out] + [bz(x) for x in cv[3:7]]
@@ -232,20 +268,20 @@ def check_lib_cases(ctx, cases, stats, heavy=False):
                 cut = events.index(binev[0]) if binev else len(events)
                 bad = [e for e in events[:cut] if e[0] in (1, 2) and bb in bz(e[-1])]
             if bad:
-                ctx.violation("a line containing the binary byte was handed to the sink", dict(kind=1401, case=c, line=cl, events=repr(events)))
+                ctx.violation("a line containing the binary byte was handed to the sink", dict(kind=kind, case=c, line=cl, events=repr(events)))
             # (b) nothing printed contains the byte (b = NUL: the property's own wording)
             if c.get("null") and c["path"] is not None:
                 outs = [o.replace(c["path"] + b"\x00", c["path"] + b":") for o in outs]   # the NULs --null itself writes
                 std_out = outs[0]
             if b == 0 and any(b"\x00" in o for o in outs):
-                ctx.violation("NUL byte in printer output without text mode", dict(kind=1401, case=c, line=cl, outs=repr(outs)))
+                ctx.violation("NUL byte in printer output without text mode", dict(kind=kind, case=c, line=cl, outs=repr(outs)))
             # (b2) a file searched in quit mode in which binary data was notified is dropped by every summary mode
             #      (count, count --include-zero, files-without-match; files-with-matches may have quit at the
             #      first match before the byte was seen: it never receives the notification then)
             if (c["mode"] == 1 and binev and c["stop"] is None and c["bin_reply"] and c["max_matches"] is None
                     and cv[1] == 0 and any(outs[i] for i in (1, 3, 4))):
                 ctx.violation("quit mode: a binary file is reported by a summary mode instead of being dropped",
-                              dict(kind=1401, case=c, line=cl, count=repr(outs[1]), files_without_match=repr(outs[3]),
+                              dict(kind=kind, case=c, line=cl, count=repr(outs[1]), files_without_match=repr(outs[3]),
                                    count_include_zero=repr(outs[4])))
             # (c) notice / warning exactly when the property says (plain sink behaviour only)
             if c["stop"] is None and c["bin_reply"] and c["max_matches"] is None and cv[1] == 0 and b == 0:
@@ -255,33 +291,42 @@ def check_lib_cases(ctx, cases, stats, heavy=False):
                     expect = bool(binev) and bool(matched_ev)
                     if warn != expect or note:
                         ctx.violation("quit mode: warning present=%s expected=%s" % (warn, expect),
-                                      dict(kind=1401, case=c, line=cl, std_out=repr(std_out), events=repr(events)))
+                                      dict(kind=kind, case=c, line=cl, std_out=repr(std_out), events=repr(events)))
                     if warn:
                         stats["warning_printed"] += 1
                     if binev and lines_ev and not matched_ev and std_out:
                         stats["passthru_cut_without_warning"] += 1
                         ctx.known(KNOWN_PASSTHRU, "library: %r" % (c,))
                     if binev and not matched_ev and std_out and not lines_ev:
-                        ctx.violation("quit mode: output for a binary file without a matched line", dict(kind=1401, case=c, line=cl))
+                        ctx.violation("quit mode: output for a binary file without a matched line", dict(kind=kind, case=c, line=cl))
                 else:
                     expect = bool(binev) and bool(matched_ev)
                     if note != expect or warn:
                         ctx.violation("convert mode: notice present=%s expected=%s" % (note, expect),
-                                      dict(kind=1401, case=c, line=cl, std_out=repr(std_out), events=repr(events)))
+                                      dict(kind=kind, case=c, line=cl, std_out=repr(std_out), events=repr(events)))
                     if note:
                         stats["notice_printed"] += 1
                     if matched_ev and not std_out:
                         ctx.violation("convert mode: a line matches but neither match nor notice is printed",
-                                      dict(kind=1401, case=c, line=cl, events=repr(events)))
+                                      dict(kind=kind, case=c, line=cl, events=repr(events)))
                     if not matched_ev and not c["passthru"] and std_out:
-                        ctx.violation("convert mode: output although no line matches", dict(kind=1401, case=c, line=cl))
+                        ctx.violation("convert mode: output although no line matches", dict(kind=kind, case=c, line=cl))
         # (d) text mode = detection off = plain grep of the raw bytes
-        if c["mode"] == 0 and c["stop"] is None and cv[1] == 0 and not ml and (c["strategy"] == 1 or 0 not in c["hist"]):
+        ctx_free = not (c.get("before") or c.get("after") or c.get("son"))
+        if "sniff" in c:
+            stats["ctx_cases"] += 1
+            if nontrivial and c["strategy"] == 1 and c["stream"].find(bb) >= min(c["sniff"], c["cap"]):
+                stats["ctx_slice_byte_beyond_sniff"] += 1
+                if any(e[0] == 2 for e in events):
+                    stats["ctx_slice_byte_beyond_sniff_with_context_lines"] += 1
+            if c["son"] and c["after"] and not c["passthru"]:
+                stats["ctx_stop_on_nonmatch_after"] += 1
+        if c["mode"] == 0 and c["stop"] is None and cv[1] == 0 and not ml and ctx_free and (c["strategy"] == 1 or 0 not in c["hist"]):
             exp = ref_grep(c)
             got = [(e[0], e[1] if e[0] == 1 else e[2], bz(e[-1])) for e in lines_ev]
             if exp != got or binev:
                 ctx.violation("detection disabled: events differ from a plain grep of the raw bytes",
-                              dict(kind=1401, case=c, line=cl, expected=repr(exp), got=repr(got)))
+                              dict(kind=kind, case=c, line=cl, expected=repr(exp), got=repr(got)))
         ctx.sample(dict(case=repr(c), result=cout)) if nontrivial and binev else None
 
 
@@ -415,7 +460,7 @@ def run_rg(args, cwd, stdin_path=None):
 ML_PATTERNS = {"ml_nl": "\\n", "ml_anb": "a\\nb", "ml_dot": "(?s)a.b"}
 OUTMODES = ["std", "std", "count", "lwm", "lwo", "lwo", "count_iz", "cm_iz", "passthru", "A1", "B1", "C2", "json", "only", "replace", "multiline",
             "ml_nl", "ml_anb", "ml_dot",
-            "vimgrep", "stats"]
+            "vimgrep", "stats", "sonA1"]
 MODELLED = {"std": 2, "count": 3, "lwm": 4, "lwo": 5, "passthru": 2, "count_iz": 6}
 
 
@@ -447,6 +492,27 @@ def straddle_files(cap):
     row = b"a" + pad(62) + b"\n"
     for name, extra in (("al0", b"\x00"), ("al1", b"\x00a\n"), ("al2", b"a\x00\n"), ("al3", row + b"\x00")):
         res["t/" + name] = row * (cap // 64) + extra
+    return res
+
+
+def ctx_straddle_files(cap):
+    """the file's first NUL beyond the sniffed prefix (offset cap) in a NON-matching line that the context options
+    report: c0 matches before and after it (--passthru); c1 no match in the first cap bytes, then a match directly
+    followed by the NUL line (-A, --stop-on-nonmatch -A: the slow line-by-line path delivers it); c2 the NUL line
+    directly before the first match (-B); c3 = c1 without a final terminator"""
+    pad = lambda n: b"x" * n
+    some = b"".join((b"x a" if i % 8 == 0 else b"bb ") + pad(250) + b"\n" for i in range(cap // 254 + 3))
+    none = b"".join(b"bb " + pad(250) + b"\n" for i in range(cap // 254 + 3))
+    assert len(some) > cap + 500 and len(none) > cap + 500
+    nul_line = b"bb \x00 xx\n"                      # holds no needle: reported only as context
+    res = {"t/c0": some + b"x a one\n" + nul_line + b"bb end\nx a two\n",
+           "t/c1": none + b"x a one\n" + nul_line + b"bb end\nx a two\n",
+           "t/c2": none + nul_line + b"x a one\nbb end\n",
+           "t/c3": none + b"x a one\n" + nul_line[:-1],
+           "e/x1": b"ab\nb\n"}
+    assert not any(n in nul_line for n in NEEDLES)
+    for content in res.values():
+        assert not (0 <= content.find(b"\x00") < cap)
     return res
 
 
@@ -501,7 +567,8 @@ def cli_round(ctx, rng, cap, stats, big_ok, fixed=None, invocations=None):
                      "count_iz": ["-c", "--include-zero"], "cm_iz": ["--count-matches", "--include-zero"],
                      "passthru": ["--passthru"], "A1": ["-A1"], "B1": ["-B1"], "C2": ["-C2"], "json": ["--json"],
                      "only": ["-o"], "replace": ["-r", "Z"], "multiline": ["-U"], "ml_nl": [], "ml_anb": [], "ml_dot": [], "vimgrep": ["--vimgrep"],
-                     "stats": ["--stats"]}[om]
+                     "stats": ["--stats"], "sonA1": ["--stop-on-nonmatch", "-A1"], "sonC1": ["--stop-on-nonmatch", "-C1"],
+                     "pt": ["--passthru"]}[om]
             if om == "json":
                 args = [a for a in args if a not in ("-N", "--no-heading", "-H")]
             tnames = [n for n in names if n.startswith("t/")]
@@ -655,6 +722,26 @@ def corpus_cases(default_cap):
     return res
 
 
+def ctx_corpus_cases(default_cap):
+    """fixed context cases: the first NUL beyond the sniffed prefix in a NON-matching line that is delivered as
+    passthru / after / before context, by the slow path (--passthru, --stop-on-nonmatch after a match) and the fast one"""
+    base = dict(b=0, capacity=64, alloc=None, hist=[], needles=[b"a"], invert=False, stop=None, bin_reply=True,
+                max_matches=None, path=b"p/f", cap=default_cap, null=False)
+    res = []
+    for stream in (b"a\na\nx\x00\nb\na\n", b"b\nx\x00\na\nx\x00\n", b"a\nb\nb\x00\nb\na\n", b"x\na\n\x00"):
+        for mode in (1, 2):
+            for strategy in (0, 1):
+                for passthru, before, after, son in ((True, 0, 0, False), (False, 0, 1, True), (False, 0, 2, False),
+                                                     (False, 1, 0, False), (False, 2, 2, False), (True, 0, 0, True),
+                                                     (False, 1, 1, True)):
+                    for sniff in (1, default_cap):
+                        c = dict(base)
+                        c.update(stream=stream, mode=mode, strategy=strategy, passthru=passthru, before=before,
+                                 after=after, son=son, sniff=sniff)
+                        res.append(c)
+    return res
+
+
 def straddle_lib_cases(default_cap):
     base = dict(b=0, capacity=default_cap, alloc=None, hist=[], needles=[b"ab"], invert=False, passthru=False, stop=None,
                 bin_reply=True, max_matches=None, path=b"p/f", cap=default_cap)
@@ -682,6 +769,9 @@ def run(ctx):
     check_lib_cases(ctx, straddle_lib_cases(default_cap), stats, heavy=True)
     cases = [gen_case(rng, default_cap) for _ in range(ctx.count(2500))]
     check_lib_cases(ctx, cases, stats)
+    # context options / --passthru / --stop-on-nonmatch, plan from the Core model, small sniffed prefix (kind 1404)
+    check_lib_cases(ctx, ctx_corpus_cases(default_cap), stats, kind=1404)
+    check_lib_cases(ctx, [gen_ctx_case(rng, default_cap) for _ in range(ctx.count(1500))], stats, kind=1404)
     # fixed shapes around offset DEFAULT_BUFFER_CAPACITY: every mode x strategy, plain / count / -U / context
     # (flag, explicit, mmap, output mode[, --null]); the modes with a model prediction (std, count_iz, lwo, lwm) cost a
     # model run per big file, so each of them appears only where it adds a strategy / detection-mode combination
@@ -696,25 +786,33 @@ def run(ctx):
            (0, False, False, "std", False, "first"), (0, False, False, "cm_iz", False, "last"),
            (0, False, True, "ml_nl", False, "first")]
     cli_round(ctx, rng, default_cap, stats, big_ok=False, fixed=straddle_files(default_cap), invocations=inv)
+    # slice strategy x context options x first NUL beyond the sniffed prefix in a context line (direct oracle: no NUL on
+    # stdout; no model runs, so the cost is that of the rg invocations)
+    inv_ctx = [(flag, explicit, mm, om)
+               for om in ("pt", "sonA1", "sonC1", "A1", "B1", "C2")
+               for flag, explicit, mm in ((0, False, True), (0, True, True), (1, False, True), (0, True, False))]
+    cli_round(ctx, rng, default_cap, stats, big_ok=False, fixed=ctx_straddle_files(default_cap), invocations=inv_ctx)
     for r in range(ctx.count(8)):
         cli_round(ctx, rng, default_cap, stats, big_ok=(r % 3 == 0))
     ctx.cov["library_branches"] = dict(stats)
     ctx.cov["rule"] = ("library cases: stream of short lines over {a,b,x} with 0-3 binary bytes at chosen places, "
                        "mode none/quit/convert, reader (capacity 1-64, eager or limited growth, read history with "
                        "short/zero/failing reads) or slice strategy, needles, invert, passthru, stopping sink, "
-                       "max_matches; non-trivial = detection enabled and the byte occurs in the stream")
+                       "max_matches; non-trivial = detection enabled and the byte occurs in the stream; "
+                       "context cases (kind 1404): 1-9 short lines, 0-2 binary bytes, before/after 0-2, passthru, "
+                       "stop_on_nonmatch, invert, sniffed prefix 0-8 bytes or the default, plan from the Core model")
 
 
 def replay(ctx, data):
     from collections import Counter
     r = data["replay"]
-    if "case" in r and r.get("kind") == 1401:
+    if "case" in r and r.get("kind") in (1401, 1404):
         c = r["case"]
         for k in ("stream", "path"):
             if isinstance(c.get(k), str):
                 c[k] = eval(c[k])
         c["needles"] = [eval(n) if isinstance(n, str) else n for n in c["needles"]]
-        check_lib_cases(ctx, [c], Counter())
+        check_lib_cases(ctx, [c], Counter(), kind=r["kind"])
 
 
 
